@@ -197,6 +197,166 @@ def normalise_function(fn):
     return fn, u.count
 
 
+
+# ---------------------------------------------------------------------------
+# Constructor-helper inlining
+# ---------------------------------------------------------------------------
+
+class _Rename(ast.NodeTransformer):
+    def __init__(self, names, exprs):
+        self.names = names      # old local name -> new local name
+        self.exprs = exprs      # parameter name -> expression substituted for its loads
+
+    def visit_Name(self, node):
+        if node.id in self.exprs and isinstance(node.ctx, ast.Load):
+            return ast.copy_location(copy.deepcopy(self.exprs[node.id]), node)
+        if node.id in self.names:
+            return ast.copy_location(ast.Name(id=self.names[node.id], ctx=node.ctx), node)
+        return node
+
+
+def _stored_names(fn):
+    out = set()
+    for n in ast.walk(fn):
+        if isinstance(n, ast.Name) and isinstance(n.ctx, (ast.Store, ast.Del)):
+            out.add(n.id)
+    return out
+
+
+def _instantiate_helper(helper, call, obj, caller_names):
+    """Statements of `helper` (a private method without a result) specialised for the call
+    `obj.helper(args)`, or None if the call cannot be expanded faithfully."""
+    fn = helper.node
+    a = fn.args
+    if a.vararg or a.kwarg or a.posonlyargs or any(
+            isinstance(x, ast.Starred) for x in call.args) or any(
+            k.arg is None for k in call.keywords):
+        return None
+    body = list(fn.body)
+    if body and isinstance(body[0], ast.Expr) and isinstance(body[0].value, ast.Constant) and \
+            isinstance(body[0].value.value, str):
+        body = body[1:]
+    if body and isinstance(body[-1], ast.Return) and body[-1].value is None:
+        body = body[:-1]
+    for st in body:
+        for sub in ast.walk(st):
+            if isinstance(sub, (ast.Return, ast.Yield, ast.YieldFrom, ast.FunctionDef,
+                                ast.AsyncFunctionDef, ast.Lambda, ast.Global, ast.Nonlocal)):
+                return None
+    params = a.args + a.kwonlyargs
+    if not params:
+        return None
+    selfp, params = params[0].arg, params[1:]
+    npos = len(a.args) - 1
+    defaults = {}
+    for p, d in zip(a.args[len(a.args) - len(a.defaults):], a.defaults):
+        defaults[p.arg] = d
+    for p, d in zip(a.kwonlyargs, a.kw_defaults):
+        if d is not None:
+            defaults[p.arg] = d
+    if len(call.args) > npos:
+        return None
+    actual = {}
+    for p, v in zip(a.args[1:], call.args):
+        actual[p.arg] = v
+    for k in call.keywords:
+        if k.arg in actual or k.arg not in {p.arg for p in params}:
+            return None
+        actual[k.arg] = k.value
+    for p in params:
+        if p.arg not in actual:
+            if p.arg not in defaults:
+                return None
+            actual[p.arg] = defaults[p.arg]
+    stored = set()
+    for st in body:
+        stored |= _stored_names(st)
+    names, exprs, prefix = {selfp: obj}, {}, []
+    tag = '_%s_' % helper.name.strip('_')
+    for p in params:
+        v = actual[p.arg]
+        pure = not any(isinstance(x, (ast.Call, ast.Await, ast.NamedExpr)) for x in ast.walk(v))
+        if p.arg not in stored and pure:
+            exprs[p.arg] = v
+        else:
+            new = p.arg if (isinstance(v, ast.Name) and v.id == p.arg) else tag + p.arg
+            if new != p.arg:
+                names[p.arg] = new
+            if not (isinstance(v, ast.Name) and v.id == new):
+                prefix.append(ast.Assign(targets=[ast.Name(id=new, ctx=ast.Store())],
+                                         value=copy.deepcopy(v)))
+    for loc in stored - {p.arg for p in params}:
+        if loc in caller_names:
+            names[loc] = tag + loc
+    out = []
+    for st in prefix:
+        ast.copy_location(st, call)
+        out.append(st)
+    for st in body:
+        c = _Rename(names, exprs).visit(copy.deepcopy(st))
+        for sub in ast.walk(c):
+            sub._inlined_from = helper.qualname
+        out.append(c)
+    return out
+
+
+def _construction_object(fi):
+    if fi.name == '__init__' and fi.kind == 'method':
+        return fi.params[0] if fi.params else None
+    if fi.kind == 'classmethod':
+        for n in ast.walk(fi.node):
+            if isinstance(n, ast.Assign) and len(n.targets) == 1 and \
+                    isinstance(n.targets[0], ast.Name) and isinstance(n.value, ast.Call) and \
+                    isinstance(n.value.func, ast.Name) and n.value.func.id == 'cls':
+                return n.targets[0].id
+    return None
+
+
+def inline_constructor_helpers(prog):
+    """Expand calls `obj._helper(...)` made by a constructor (compute / read / train /
+    __init__) on the object it is building, so that rules about what a constructor assigns,
+    restores and draws see through an extracted set-up method.  Only private methods of the
+    same class without a result are expanded, two levels deep."""
+    total = 0
+    for fi in list(prog.functions.values()):
+        if fi.cls is None:
+            continue
+        obj = _construction_object(fi)
+        if obj is None:
+            continue
+        for _ in range(2):
+            caller_names = _stored_names(fi.node) | set(fi.params)
+            done = [0]
+
+            class Inl(ast.NodeTransformer):
+                def visit_Expr(self, node):
+                    c = node.value
+                    if isinstance(c, ast.Call) and isinstance(c.func, ast.Attribute) and \
+                            isinstance(c.func.value, ast.Name) and c.func.value.id == obj:
+                        h = fi.cls.methods.get(c.func.attr)
+                        if h is not None and h.kind == 'method' and h is not fi and \
+                                h.name.startswith('_') and not h.name.startswith('__'):
+                            body = _instantiate_helper(h, c, obj, caller_names)
+                            if body:
+                                done[0] += 1
+                                return body
+                    return node
+
+                def visit_FunctionDef(self, node):
+                    if node is fi.node:
+                        self.generic_visit(node)
+                    return node
+
+                visit_Lambda = visit_ClassDef = lambda self, node: node
+
+            fi.node = Inl().visit(fi.node)
+            if not done[0]:
+                break
+            total += done[0]
+            ast.fix_missing_locations(fi.node)
+    prog.n_inlined = total
+    return total
+
 # ---------------------------------------------------------------------------
 # Loading
 # ---------------------------------------------------------------------------
@@ -309,6 +469,7 @@ def load_program(repo):
                                     % (rel, sub.lineno, sub.func.id))
     prog.digest = h.hexdigest()
     prog.n_unrolled = n_unrolled
+    inline_constructor_helpers(prog)
     if len(prog.modules) < 11:
         raise AnalysisError('only %d modules parsed (floor 11)' % len(prog.modules))
     if len(prog.classes) < 11:
